@@ -232,6 +232,13 @@ theorem C20.copy_writes_in_place (s s' : State) (a b full : Nat) (ca : Cont) (h 
     (∀ c cc, c ≠ a → s.slot c = some cc → ¬ Shares s a c → s'.slot c = some cc ∧ cc.obs s'.pool = cc.obs s.pool) :=
   copy_in_place h hsa
 
+/-- meta-containers: an operation of a `TupleVector` is executed by the driver as the `run` of its component
+    operations (the correspondence checks the real `TupleVector<DenseVector, DenseVector>` against exactly that);
+    such a composite step preserves both invariants, whatever the component operations are -/
+theorem C20.composite_ops_preserve_invariants (s s' : State) (ops : List Op) (hi : Inv s) (hal : Aligned s)
+    (h : run s ops = .ok s') : Inv s' ∧ Aligned s' :=
+  ⟨FeatModel.Pool.inv_run hi h, aligned_run hal h⟩
+
 /-- the history that leaked two chunks before /repo commit eef945341 (one layout object assigned twice, everything
     destroyed; former finding F-C20-1) now ends with an empty pool and a clean `finalize` -/
 example :
